@@ -282,7 +282,7 @@ static bool match(const String& a, const String& patt)
 	int i = patt.indexOf('*');
 	if (i==-1)
 		return a==patt;
-	return a.startsWith(patt.substring(0,i)) && a.endsWith(patt.substring(i+1));
+	return a.length() >= patt.length() - 1 && a.startsWith(patt.substring(0,i)) && a.endsWith(patt.substring(i+1));
 }
 
 const Array<File> Directory::items(const String& which, Directory::ItemType t)
@@ -292,7 +292,7 @@ const Array<File> Directory::items(const String& which, Directory::ItemType t)
 	if(!d)
 		return _files;
 	String dir = _path.endsWith('/')? _path : _path+'/';
-	bool wildcard = which.contains('*') && which != "*";
+	bool wildcard = which != "*"; // (a pattern without '*' is a plain name)
 	
 	while(dirent* entry=readdir(d))
 	{
